@@ -38,6 +38,23 @@ type Net struct {
 
 var errDialRefused = errors.New("dsim: dial refused")
 
+// errTransientWrite: one write is refused (e.g. a send timeout), the connection stays usable.
+var errTransientWrite = errors.New("dsim: transient write error")
+
+// ParkedWriters reports how many writes are parked in the link right now.
+func (l *Link) ParkedWriters() int {
+	l.net.s.mu.Lock()
+	defer l.net.s.mu.Unlock()
+	return l.parked
+}
+
+// FailNextWrites makes the next n client writes fail while the link stays up.
+func (l *Link) FailNextWrites(n int) {
+	l.net.s.mu.Lock()
+	l.failWrites += n
+	l.net.s.mu.Unlock()
+}
+
 // Link is one transport incarnation. It carries encoded frames (it sits below
 // encoding.Transport) and implements transport.Transport + transport.Closer.
 type cframe struct {
@@ -65,6 +82,8 @@ type Link struct {
 	clientClosed bool
 	blackhole    bool          // peer silently gone: writes succeed, nothing is delivered
 	stalled      bool          // slow link: Write blocks until the scheduler resumes it
+	failWrites   int           // the next n writes fail with a transient error (the link stays up)
+	parked       int           // writers currently parked in Write
 	room         chan struct{} // closed when a blocked Write may try again
 	dieOnConnect bool          // handshake-cut fault
 
@@ -169,6 +188,7 @@ func (l *Link) Write(b []byte) error {
 		}
 		ch := l.room
 		s.stats["env.write-blocked-by-backpressure"]++
+		l.parked++
 		s.mu.Unlock()
 		select {
 		case <-ch:
@@ -176,6 +196,7 @@ func (l *Link) Write(b []byte) error {
 		case <-l.closed:
 		}
 		s.mu.Lock()
+		l.parked--
 		if l.clientClosed {
 			s.mu.Unlock()
 			return transport.ErrAlreadyClosed
@@ -184,6 +205,12 @@ func (l *Link) Write(b []byte) error {
 			s.mu.Unlock()
 			return l.deadWriteErr
 		}
+	}
+	if l.failWrites > 0 {
+		l.failWrites--
+		s.stats["fault.transient-write-error"]++
+		s.mu.Unlock()
+		return errTransientWrite
 	}
 	l.txBytes += uint64(len(b))
 	l.txFrames++
